@@ -437,8 +437,7 @@ class C09(object):
                 a = wu.inflight[aid]
                 x = a["x"]
                 shape = (prog["tasks"].get(a["task"]) or {}).get("shape", "token")
-                seen = sorted(wu.ledger.routes_seen.get(x.task, ()))
-                rk = seen.index(x.route) if x.route in seen else 0
+                rk = driver.route_identity(wu, x.route)
                 status, result = sp.outcome(a["task"], x.visit, x.attempt, a["item"], shape, rk)
                 do(["deliver", aid, status, result])
                 dispatch_all()
@@ -535,7 +534,7 @@ class RerunScheduler(driver.Scheduler):
         forced = (self.forced_all is not None and a["task"] in self.forced_all) or \
                  (self.forced_after is not None and a["task"] in self.forced_after and x.xid >= self.floor)
         if forced:
-            _, result = self.outcome(a["task"], 1, 1, a["item"], shape)
+            _, result = self.outcome(a["task"], 1, 1, a["item"], shape, self.route_key(x))
             return "succeeded", result
         return self.outcome(a["task"], x.visit, x.attempt, a["item"], shape, self.route_key(x))
 
